@@ -484,7 +484,11 @@ func convMapToTarget(source interface{}, target reflect.Type) (interface{}, erro
 		if err != nil {
 			return nil, err
 		}
-		result.SetMapIndex(k, reflect.ValueOf(evalue))
+		if evalue == nil {
+			result.SetMapIndex(k, reflect.Zero(target.Elem()))
+		} else {
+			result.SetMapIndex(k, reflect.ValueOf(evalue))
+		}
 	}
 	return result.Interface(), nil
 }
@@ -500,7 +504,11 @@ func convArrayTypeToTarget(source interface{}, target reflect.Type) (interface{}
 		if err != nil {
 			return nil, err
 		}
-		sliceValue = reflect.Append(sliceValue, reflect.ValueOf(evalue))
+		if evalue == nil {
+			sliceValue = reflect.Append(sliceValue, reflect.Zero(target.Elem()))
+		} else {
+			sliceValue = reflect.Append(sliceValue, reflect.ValueOf(evalue))
+		}
 	}
 	return sliceValue.Interface(), nil
 }
